@@ -413,7 +413,58 @@ fn set_probe(o: &mut Outcome, p: u32) {
     o.probes |= 1 << p;
 }
 
+/// A trace whose fault list contains `NextCall` separators is a HISTORY: the consumer is called once per
+/// segment on the same producer output, in order, in this thread; the last segment is the call that is checked
+/// (and it is made twice: a pure function must give the same, correct answer again). Panics of the earlier
+/// calls are reported like any other.
 pub fn execute(ctx: &Ctx, trace: &Trace, opts: &ExecOpts) -> Outcome {
+    if trace.faults.iter().any(|f| matches!(f.op, Op::NextCall)) {
+        let mut segments: Vec<Vec<crate::trace::Fault>> = vec![Vec::new()];
+        let mut seg_start: Vec<usize> = vec![0];
+        for (i, f) in trace.faults.iter().enumerate() {
+            if matches!(f.op, Op::NextCall) {
+                segments.push(Vec::new());
+                seg_start.push(i + 1);
+            } else {
+                segments.last_mut().unwrap().push(f.clone());
+            }
+        }
+        let n = segments.len();
+        let mut carried: Vec<Violation> = Vec::new();
+        for seg in segments.iter().take(n - 1) {
+            let sub = Trace { prop: trace.prop.clone(), producer: trace.producer.clone(), faults: seg.clone() };
+            let o = execute_one(ctx, &sub, opts);
+            for v in o.violations {
+                if v.prop == "C05" {
+                    carried.push(Violation { prop: v.prop, class: v.class, detail: format!("(in an earlier call of the history) {}", v.detail) });
+                }
+            }
+        }
+        let main = Trace { prop: trace.prop.clone(), producer: trace.producer.clone(), faults: segments[n - 1].clone() };
+        let mut o = execute_one(ctx, &main, opts);
+        let again = execute_one(ctx, &main, opts);
+        for v in again.violations {
+            if !o.violations.iter().any(|w| w.prop == v.prop && w.class == v.class) {
+                o.violations.push(Violation { prop: v.prop, class: format!("{}@repeated_call", v.class), detail: v.detail });
+            }
+        }
+        if again.ec != o.ec || again.parse != o.parse || again.data != o.data {
+            o.other_events.push("same_input_different_outcome_on_repeated_call".into());
+        }
+        o.violations.extend(carried);
+        // map `fired` back onto the full fault list
+        let mut fired = vec![false; trace.faults.len()];
+        for (j, f) in o.fired.iter().enumerate() {
+            fired[seg_start[n - 1] + j] = *f;
+        }
+        o.fired = fired;
+        o.fired_kinds |= 1u64 << crate::trace::kind_id("history");
+        return o;
+    }
+    execute_one(ctx, trace, opts)
+}
+
+fn execute_one(ctx: &Ctx, trace: &Trace, opts: &ExecOpts) -> Outcome {
     let nf = trace.faults.len();
     let mut o = Outcome {
         violations: Vec::new(),
